@@ -462,6 +462,18 @@ def _yule_walker(prog, eng, f, me, data, fields, cv):
         nm = short(t[1])
         if nm == 'rev':
             nrev += 1
+        elif nm == 'map' and len(t[2]) == 2 and tag(t[2][1]) == 'agg' and t[2][1][1] == 'closure':
+            # an element-wise transformation between the solution of the system and the stored coefficients: anything but a copy changes them
+            g_ = prog.func(t[2][1][2])
+            rv_ = g_.return_values() if g_ is not None else []
+            x_ = ('arg', 2, g_.names.get(2)) if g_ is not None else None
+            ident = len(rv_) == 1 and (rv_[0] == x_ or (tag(rv_[0]) == 'deref' and rv_[0][1] == x_))
+            if not ident:
+                nonlin = [short(z[1]) for r_ in rv_ for z in subterms(r_) if tag(z) == 'call' and short(z[1]) in ('clamp', 'min', 'max', 'abs', 'signum', 'round', 'floor', 'ceil')]
+                if nonlin:
+                    return ('viol', 'the solution of the Yule-Walker system is passed through %s before it is stored: the stored coefficients no longer solve the '
+                                    'equations whenever that changes a value (a true coefficient of magnitude >= the bound)' % nonlin[0])
+                return ('undecided', 'coefficients are transformed element-wise before they are stored (%s)' % show(rv_[0])[:40] if rv_ else 'map closure not read')
         elif nm not in ('collect', 'into_iter', 'iter', 'cloned', 'copied', 'to_vec', 'clone', 'to_owned', 'from', 'into', 'deref', 'as_slice'):
             return ('undecided', 'coefficient pipeline step %s not read' % nm)
         if not t[2]:
